@@ -477,6 +477,38 @@ class RealOptions(StubOptions):
         from supervisor.options import ServerOptions
         return ServerOptions.check_execv_args(self, filename, argv, st)       # the real one
 
+    # -- pipes: distinct descriptor numbers per process; what a write() on a child's stdin does is scripted
+    def make_pipes(self, stderr=True):
+        base = getattr(self, '_nextfd', 100)
+        self._nextfd = base + 10
+        pipes = {'child_stdin': base, 'stdin': base + 1, 'stdout': base + 2, 'child_stdout': base + 3}
+        if stderr:
+            pipes['stderr'], pipes['child_stderr'] = base + 4, base + 5
+        else:
+            pipes['stderr'], pipes['child_stderr'] = None, None
+        return pipes
+
+    def write(self, fd, data):
+        mode = getattr(self, 'stdin_mode', {}).get(fd, 'ok')
+        if mode == 'full':                       # the non-blocking pipe is full
+            raise OSError(errno.EAGAIN, 'Resource temporarily unavailable')
+        if mode == 'wouldblock':
+            raise OSError(errno.EWOULDBLOCK, 'Operation would block')
+        if mode == 'closed':                     # the child closed its stdin
+            raise OSError(errno.EPIPE, 'Broken pipe')
+        n = min(len(data), 3) if mode == 'partial' else len(data)
+        self.world.effects.append(('os', 'write', fd, bytes(data[:n])))
+        return n
+
+    def readfd(self, fd):
+        return b''
+
+    def getLogger(self, *args, **kw):
+        if getattr(self, 'real_child_loggers', False):
+            from supervisor import loggers
+            return loggers.getLogger(*args, **kw)      # what ServerOptions.getLogger does
+        return StubOptions.getLogger(self, *args, **kw)
+
     def fork(self):
         self.nextpid += 1
         self.world.effects.append(('os', 'fork', self.nextpid))
@@ -501,6 +533,31 @@ class RealPConfig(DummyPConfig):
         return p
 
 
+class RealDispPConfig(DummyPConfig):
+    """Process config whose dispatchers are the REAL ones (POutputDispatcher with
+    real loggers / handlers, PInputDispatcher), built by the real
+    ProcessConfig.make_dispatchers."""
+
+    def make_dispatchers(self, proc):
+        from supervisor.options import ProcessConfig
+        return ProcessConfig.make_dispatchers(self, proc)
+
+    def make_process(self, group=None):
+        p = _sproc.Subprocess(self)
+        p.group = group
+        return p
+
+
+def install_syslog_stub():
+    """syslog is never contacted: SyslogHandler._syslog exists for this purpose."""
+    from supervisor import loggers
+    if not getattr(loggers.SyslogHandler._syslog, 'c12_stub', False):
+        def _syslog(self, msg):
+            pass
+        _syslog.c12_stub = True
+        loggers.SyslogHandler._syslog = _syslog
+
+
 # (group, process, state, quirk)
 REAL_VARIANTS = [
     [('g1', 'p1', S.RUNNING, None), ('g1', 'p2', S.STOPPING, None), ('g2', 'q1', S.STARTING, None),
@@ -514,6 +571,9 @@ REAL_VARIANTS = [
      ('g2', 'q1', S.STOPPED, 'cmd:cmd_dir'), ('solo', 'solo', S.STOPPED, 'cmd:cmd_noperm --flag')],
     [('g1', 'p1', S.EXITED, 'cmd:cmd_noperm'), ('g1', 'p2', S.FATAL, 'cmd:cmd_missing'),
      ('g2', 'q1', S.BACKOFF, 'cmd:cmd_dir'), ('solo', 'solo', S.STOPPED, "rawcmd:cat 'unbalanced")],
+    # real dispatchers and log handlers: rd:<what write() on the child's stdin does>:<syslog channels>[+file]
+    [('g1', 'p1', S.RUNNING, 'rd:full:'), ('g1', 'p2', S.RUNNING, 'rd:closed:out+file'),
+     ('g2', 'q1', S.RUNNING, 'rd:partial:out,err'), ('solo', 'solo', S.STARTING, 'rd:wouldblock:err+file')],
 ]
 
 
@@ -543,6 +603,37 @@ class RealWorld(World):
             logs = {'p1': ('p1.out', 'p1.err'), 'p2': ('bad.out', 'isdir.err'), 'q1': ('eacces.out', 'absent.err'),
                     'solo': ('solo.out', 'p1.err')}[p]
             command = '/bin/cat'
+            if quirk and quirk.startswith('rd:'):
+                _, mode, sysl = quirk.split(':')
+                opts.real_child_loggers = True
+                install_syslog_stub()
+                RealWorld._n = getattr(RealWorld, '_n', 0) + 1
+                priv = os.path.join(logdir, 'rd', '%d' % RealWorld._n)     # handlers append to / remove these files
+                os.makedirs(priv)
+                chans = sysl.replace('+file', '').split(',') if sysl else []
+                wantfile = (not sysl) or sysl.endswith('+file')
+                out = os.path.join(priv, p + '.out') if (wantfile or 'out' not in chans) else None
+                err = os.path.join(priv, p + '.err') if (wantfile or 'err' not in chans) else None
+                for f in (out, err):
+                    if f:
+                        with open(f, 'wb') as fh:
+                            fh.write((u'line of %s caf\u00e9\n' % p).encode('utf-8'))
+                pc = RealDispPConfig(opts, p, command, priority=10 + k, startsecs=2, stopwaitsecs=10,
+                                     stdout_logfile=out, stderr_logfile=err,
+                                     stdout_syslog='out' in chans, stderr_syslog='err' in chans)
+                pc.stdin_mode = mode
+                if g not in gconfigs:
+                    gconfigs[g] = DummyPGroupConfig(opts, g, priority=prio[g], pconfigs=[])
+                    groups[g] = DummyProcessGroup(gconfigs[g])
+                    groups[g].processes = {}
+                gconfigs[g].process_configs.append(pc)
+                proc = pc.make_process(groups[g])
+                self._put_in_state(proc, state, None, 1100 + k)
+                if not hasattr(opts, 'stdin_mode'):
+                    opts.stdin_mode = {}
+                opts.stdin_mode[proc.pipes['stdin']] = mode
+                groups[g].processes[p] = proc
+                continue
             if quirk and quirk.startswith('cmd:'):
                 command = os.path.join(logdir, quirk[4:])
             elif quirk and quirk.startswith('rawcmd:'):
